@@ -12,6 +12,7 @@ import (
 	"sort"
 	"strings"
 	"sync"
+	"sync/atomic"
 	"time"
 
 	"golang.org/x/tools/go/ssa"
@@ -44,7 +45,11 @@ type TargetRun struct {
 }
 
 func newEngine(prog *ssa.Program, spkgs []*ssa.Package) *Engine {
-	return &Engine{prune: true, workers: workerCount(), prog: prog, pkgs: spkgs, loops: map[string]map[int]*LoopAnn{}, heapSorts: map[string]string{}, opaque: map[string]bool{}, contracts: map[string]*Contract{}, siteOrd: map[ssa.Instruction]int{}}
+	w := workerCount()
+	if os.Getenv("GOVC_TRACE") != "" {
+		w = 1
+	}
+	return &Engine{prune: true, workers: w, prog: prog, pkgs: spkgs, loops: map[string]map[int]*LoopAnn{}, heapSorts: map[string]string{}, opaque: map[string]bool{}, contracts: map[string]*Contract{}, siteOrd: map[ssa.Instruction]int{}}
 }
 
 func workerCount() int {
@@ -97,8 +102,11 @@ func (e *Engine) verify2(t *Target) {
 	}
 	f := e.newFrame(s, fn, args, nil, nil, true)
 	s.frames = []*Frame{f}
+	need := neededOlds(fn, t.D.Posts)
 	for i, p := range fn.Params {
-		f.entry[p.Name()] = e.snapshot(s, args[i])
+		if need[p.Name()] {
+			f.entry[p.Name()] = e.snapshot(s, args[i])
+		}
 	}
 	e.globalInvariants(s, t)
 	if t.D.Pre != "" {
@@ -253,7 +261,7 @@ func runSolvers(script string, tmo int, dir string, tag string) solverRes {
 		argv  []string
 	}{
 		{0, []string{"cvc5", "--tlimit=" + fmt.Sprint(tmo*1000), fn}},
-		{1500 * time.Millisecond, []string{"z3-new", "-T:" + fmt.Sprint(tmo), fn}},
+		{300 * time.Millisecond, []string{"z3-new", "-T:" + fmt.Sprint(tmo), fn}},
 		{6 * time.Second, []string{"z3", "-T:" + fmt.Sprint(tmo), fn}},
 	}
 	ctx, cancel := context.WithCancel(context.Background())
@@ -319,6 +327,13 @@ func (e *Engine) discharge(tmo int) {
 	var wg sync.WaitGroup
 	par := runtime.NumCPU() * 2
 	sem := make(chan struct{}, par)
+	// global budget: a run whose proofs start timing out (a changed tree) must still end in bounded time
+	budget := 240 * time.Second
+	if tier == "thorough" {
+		budget = 40 * time.Minute
+	}
+	deadline := time.Now().Add(budget)
+	var retries int32
 	for i, o := range e.obs {
 		if o.Triv {
 			continue
@@ -332,9 +347,13 @@ func (e *Engine) discharge(tmo int) {
 			defer wg.Done()
 			sem <- struct{}{}
 			defer func() { <-sem }()
+			if time.Now().After(deadline) {
+				o.Result, o.Output = "timeout", "not attempted: the global solving budget of this run was exhausted"
+				return
+			}
 			r := runSolvers(o.Script, tmo, dir, fmt.Sprintf("ob%05d", i))
 			o.Result, o.Solver, o.Ms, o.Output = r.first, r.solver, r.ms, r.out
-			if o.Expect == "unsat" && o.Result != "unsat" && o.Result != "sat" {
+			if o.Expect == "unsat" && o.Result != "unsat" && o.Result != "sat" && atomic.AddInt32(&retries, 1) <= 8 && time.Now().Before(deadline) {
 				// one retry with a longer limit before an obligation is reported as failed for lack of an answer
 				r = runSolvers(o.Script, tmo*3, dir, fmt.Sprintf("ob%05d_retry", i))
 				o.Result, o.Solver, o.Ms, o.Output = r.first, r.solver, o.Ms+r.ms, r.out
